@@ -1488,11 +1488,19 @@ Error Assembler::_emit(InstId inst_id, const Operand_& o0, const Operand_& o1, c
 
         bool has_sp = o0.as<Gp>().is_sp() || o1.as<Gp>().is_sp();
 
+        // CMN|CMP (register) - Rm cannot be SP.
+        if (!check_gp_id(o1, kZR))
+          goto InvalidPhysId;
+
         // Shift operation - LSL, LSR, ASR.
         if (shift_type <= uint32_t(ShiftOp::kASR)) {
           if (!has_sp) {
             if (!check_signature(o0, o1)) {
               goto InvalidInstruction;
+            }
+
+            if (!check_gp_id(o0, kZR)) {
+              goto InvalidPhysId;
             }
 
             if (shift_value >= op_size) {
@@ -1521,6 +1529,10 @@ Error Assembler::_emit(InstId inst_id, const Operand_& o0, const Operand_& o1, c
         if (shift_type > 7 || shift_value > 4) {
           goto InvalidImmediate;
         }
+
+        // CMN|CMP (extend) - SP allowed in Rn, ZR is not.
+        if (!check_gp_id(o0, kSP))
+          goto InvalidPhysId;
 
         // Validate whether the register operands match extend option.
         if (o1.as<Reg>().reg_type() != extend_option_to_reg_type(shift_type) || o0.as<Reg>().reg_type() < o1.as<Reg>().reg_type()) {
